@@ -290,3 +290,13 @@ sub('statistics/scalarDistribution/binomial.go','''  dist.n  .SetFloat64(float64
   dist.z  .Lgamma(dist.np1)''','''  dist.np1.SetFloat64(float64(n+1))
   dist.n  .SetFloat64(float64(n+0))
   dist.z  .Lgamma(dist.np1)''')
+# --- batch E robustness edits ---
+# Estimate: the estimator is initialised first, in a differently commented block, the rescaling follows (original order)
+sub('statistics/vectorEstimator/normal.go','''  // initialize estimator
+  obj.Initialize(p)
+''','''  // reset the accumulators of every thread
+  if err := obj.Initialize(p); err != nil {
+    return err
+  }
+''')
+# named parameter installed through its own setter, value held in a renamed local (already renamed above: fs)
